@@ -23,7 +23,7 @@ func StripDuplicates(path Path64, isClosedPath bool) Path64 {
 		}
 	}
 
-	if isClosedPath && lastPt.Equals(result[0]) {
+	if isClosedPath && len(result) > 1 && lastPt.Equals(result[0]) {
 		var err error
 		result, err = removeAtIndex(result, len(result)-1)
 		if err != nil {
